@@ -260,6 +260,13 @@ fn run_case(r: &mut Rng, dir: &std::path::Path, idx: usize, ts: Ts, nodes: Vec<N
             if *m != wmeta { set_fail("CollectorMetaDiffers", String::new()); }
             let co = cobj(o);
             if co != wobj { set_fail("CollectorObjectDiffers", format!("splits {:x?}: whole {:?} collected {:?}", splits, wobj, co)); }
+            // every portion: after reading up to s_1 .. s_i the object holds exactly the elements below max(s_1 .. s_i)
+            let mut hi = 0u32;
+            for (s, part) in splits.iter().zip(parts.iter()) {
+                hi = hi.max(*s);
+                let want: CObj = wobj.iter().filter(|(t, _)| **t < hi).map(|(t, v)| (*t, v.clone())).collect();
+                if *part != want { set_fail("CollectorPortionDiffers", format!("splits {:x?}: after stop {:x} expected tags {:x?} got {:x?}", splits, s, want.keys().collect::<Vec<_>>(), part.keys().collect::<Vec<_>>())); }
+            }
             c_parts = c_list(parts.iter().map(c_obj));
             c_final = c_ok(&c_obj(&co));
         }
